@@ -21,6 +21,8 @@ IsW(w) == Is("Write") /\ Trace[l].w = w
 B(x) == IF x THEN 1 ELSE 0
 
 TInit == Init /\ l = 1
+\* the recorded sweep input carries a control block iff the channel is a taproot channel
+SignableT == Trace[l].cb = B(CType = "taproot")
 
 Reset ==
   /\ Is("Reset")
@@ -29,8 +31,8 @@ Reset ==
   /\ wiped' = FALSE /\ rcpc' = "idle"
   /\ closedDb' = FALSE /\ bmark' = FALSE /\ nursery' = FALSE /\ resolvedDb' = FALSE
   /\ finalOut' = [h \in HTLCs |-> "none"] /\ preimg' = FALSE
-  /\ late' = FALSE /\ vlate' = FALSE /\ published' = FALSE /\ sweepReq' = FALSE
-  /\ spent1' = "none" /\ spent2' = FALSE /\ spentIn' = FALSE /\ breachDone' = FALSE /\ userAsked' = FALSE
+  /\ late' = FALSE /\ vlate' = FALSE /\ published' = FALSE /\ sweepReq' = {}
+  /\ spent1' = "none" /\ spent2' = FALSE /\ spentIn' = "none" /\ breachDone' = FALSE /\ userAsked' = FALSE
   /\ alive' = TRUE /\ state' = "Default" /\ mq' = <<>> /\ tg' = "chain" /\ res' = NoVol
   /\ pendUser' = FALSE /\ pendClose' = FALSE /\ closeSent' = FALSE
   /\ upstream' = [h \in HTLCs |-> {}] /\ ncrash' = 0 /\ quirks' = {} /\ nw' = 0
@@ -57,13 +59,20 @@ TNext ==
   \/ Is("Spend") /\ Trace[l].k \in {"timeout", "claim"} /\ SpendHtlc(Trace[l].k)
   \/ Is("Spend") /\ Trace[l].k = "sweep2" /\ SpendSecond
   \/ Is("Spend") /\ Trace[l].k = "sweepin" /\ SpendIn
+  \/ Is("Spend") /\ Trace[l].k = "successtx" /\ SpendIn1
+  \* a resolver registers for the spend of an outpoint: it must be one that exists on the model's chain
+  \/ Is("Watch") /\ Exists(Trace[l].k) /\ UNCHANGED vars
   \/ Is("BreachDone") /\ BreachDoneEv
   \/ Is("Crash") /\ Crash
   \/ Is("Restart") /\ Restart
   \/ Is("Up") /\ Trace[l].k = "fail" /\ \E src \in Srcs : MUps(src, Trace[l].h)
   \/ Is("Up") /\ \E r \in Rid : RUp(r, Trace[l].k) /\ Trace[l].h = "o"
   \/ Is("Publish") /\ ((\E src \in Srcs : MPublish(src)) \/ (\E r \in Rid : RPublish(r)))
-  \/ Is("Sweep") /\ \E r \in Rid : RLaunch(r)
+  \* an input handed to the sweeper: the recorded outpoint must be the one the resolver's stage calls for; whether
+  \* it can be signed (taproot: control block present) is taken from the line and judged by SweepsSignable
+  \/ Is("Sweep") /\ (\E r \in Rid : LaunchOp(r) = Trace[l].k /\ RLaunch(r, SignableT))
+  \/ Is("Sweep") /\ (\E r \in Rid : ZfLocal(r) /\ Sweep2Op(r) = Trace[l].k /\ RSweep2(r, SignableT))
+  \/ Is("Sweep") /\ Trace[l].k = "anchor" /\ RAnchor(TRUE)
   \/ IsW("CommitState") /\ \E src \in Srcs : MCommit(src)
   \/ IsW("LogResolutions") /\ \E src \in Srcs : MLogRes(src)
   \/ IsW("InsertCommitSet") /\ \E src \in Srcs : MInsCS(src)
